@@ -1010,6 +1010,14 @@ func (w *Writer) writeEntryPointInputStruct(epIdx int, ep *ir.EntryPoint, fn *ir
 		// collisions with global names. Builtin members use the global namer.
 		hasLocations := false
 		varyingsNamer := newNamer()
+		// The bare @location arguments are members of the same input struct: their names are taken.
+		for i := range fn.Arguments {
+			if b := fn.Arguments[i].Binding; b != nil {
+				if _, ok := (*b).(ir.LocationBinding); ok {
+					_ = varyingsNamer.call(w.getName(nameKey{kind: nameKeyFunctionArgument, handle1: uint32(epFuncHandle(epIdx)), handle2: uint32(i)}))
+				}
+			}
+		}
 		for _, sa := range structArgs {
 			for memberIdx, member := range sa.st.Members {
 				key := nameKey{kind: nameKeyStructMember, handle1: uint32(sa.tyH), handle2: uint32(memberIdx)}
